@@ -46,6 +46,7 @@ JudgeResize(pre, r) ==
   /\ TabsResizeOK(pre.t, r.vt.t)                                                       \* C18
   /\ (r.vt.t.rows # pre.t.rows => r.vt.t.top = 0 /\ r.vt.t.bottom = r.vt.t.rows - 1)   \* C05/C06
   /\ (r.vt.t.rows = pre.t.rows => r.vt.t.top = pre.t.top /\ r.vt.t.bottom = pre.t.bottom)
+  /\ (~pre.t.alt /\ pre.t.lim = -1) => ResizeTextOK(pre.t, r.vt.t)                    \* C10
 
 Behaviour(h, st) == "@@ BEHAVIOUR " \o ToJson([init |-> h.init, ops |-> h.ops, st |-> st])
 
